@@ -17,7 +17,8 @@ def run_pipeline(ctx, cases, chunk=60):
         return {"Text": c["Text"], "Weight": bool(c.get("Weight")), "Repeat": int(c.get("Repeat", 1)),
                 "Solve": bool(c.get("Solve")), "Assemble": bool(c.get("Assemble")),
                 "Error": c.get("Error", ""), "Order": c.get("Order", ""), "ScratchDir": scratch or ctx.work,
-                "ViaPre": bool(c.get("ViaPre")), "WriteBack": bool(c.get("WriteBack")), "ParseOnly": bool(c.get("ParseOnly"))}
+                "ViaPre": bool(c.get("ViaPre")), "WriteBack": bool(c.get("WriteBack")), "ParseOnly": bool(c.get("ParseOnly")),
+                "Repo": C.REPO, "Templates": bool(c.get("Templates"))}
     outs = [None] * len(cases)
     shared = [k for k, c in enumerate(cases) if not c.get("Isolate")]
     alone = [k for k, c in enumerate(cases) if c.get("Isolate")]
@@ -200,6 +201,14 @@ def stageD_case(out, rng, nsample=12):
         sample.append("(%d, %d)%%nat" % (rng.randrange(max(n, 1)), rng.randrange(max(n, 1))))
     return ("{| sy_bars := %s;\n   sy_nodes := [%s];\n   sy_n := %d;\n   sy_K := [%s];\n   sy_F := [%s];\n   sy_sample := [%s] |}"
             % (E.coq_list(bars), "; ".join(nodes), n, "; ".join(K), "; ".join(F), "; ".join(sample)))
+
+
+def stageG(ctx, triples, shard=3):
+    """stage G: the translated template rendered by the Coq model of text/template over what the template
+    saw of the value == the text Go wrote (map-backed sections in canonical order).  triples: (template,
+    data record, text).  Returns (n, mismatches) as run_stage."""
+    canon = [(tm, E.canon_template_data(d), E.canon_written_text(t)) if tm != "tmpl_solution" else (tm, d, t) for tm, d, t in triples]
+    return run_stage(ctx, "G", canon, E.render_v, shard=shard)
 
 
 def stageH_v(terms):
